@@ -9,6 +9,7 @@
 -/
 import PyGqlModel.Lemmas.PrintTokens
 import PyGqlModel.Lemmas.PrintLexFloat
+import PyGqlModel.Lemmas.PrintTokensDir
 import PyGqlModel.Props.C01_parse
 namespace PyGql.Props.C03
 open PyGql PyGql.Ast PyGql.Parse PyGql.Spec PyGql.Print PyGql.PrintLex PyGql.PrintMatch PyGql.PrintTokens PyGql.Lex
@@ -97,6 +98,25 @@ example : ∃ toks, lexAll (printValue (mkCfg (.str [9])) exF) = .ok toks ∧ pa
       simp only [exF, lexOkValue, lexOkValues, lexOkField, lexOkFields, and_true]
       exact ⟨by decide, float_lexeme_spec _ (by decide), float_lexeme_spec _ (by decide), float_lexeme_spec _ (by decide)⟩)
     (by decide) (by decide)
+
+/-- `print_tokens_directives`: one layer above values — a printed directive list `@a(x: 1, y: [$v]) @b` (arguments
+    with arbitrary values, as in `print_tokens_value`) lexes to exactly the canonical yield of `Directives`
+    (`@ Name ( Name : Value … )` per directive).  There is no parser entry point for directives alone, so this is the
+    token-level half; it is the building block for fields, operations and type-system definitions. -/
+theorem print_tokens_directives (c : Cfg) (ds : List Directive) (h : lexOkDirectives c.indent ds) :
+    ∃ toks, lexAll (printDirectives c ds) = .ok (sofTok :: toks ++ [eofTok (printDirectives c ds).length]) ∧
+      classes toks = Item.yieldAll (directivesV ds) := by
+  have := lexesTo_directives c ds h [] [] safe_nil lexesTo_nil
+  simp only [List.append_nil] at this
+  exact lexAll_of_lexesTo this
+
+/-- non-vacuity: `@a(x: 1, y: [$v]) @b` -/
+example : ∃ toks, lexAll (printDirectives (mkCfg (.width 2))
+      [⟨⟨[97], none⟩, [⟨⟨[120], none⟩, .int [49] none, none⟩, ⟨⟨[121], none⟩, .list [.var ⟨⟨[118], none⟩, none⟩] none, none⟩], none⟩,
+       ⟨⟨[98], none⟩, [], none⟩]) = .ok toks :=
+  let ⟨toks, h, _⟩ := print_tokens_directives (mkCfg (.width 2)) _
+    (by simp only [lexOkDirectives, lexOkDirective, lexOkArguments, lexOkArgument, lexOkValue, lexOkValues, and_true]; decide)
+  ⟨_, h⟩
 
 /-- `print_stable` for types and values: printing the re-parsed tree reproduces the same text -/
 theorem print_stable_type (fl : Flags) (hnl : fl.noLocation = true) (t : TypeRef) (hl : lexOkType t = true)
@@ -240,7 +260,8 @@ theorem print_stable_of_modulo (h : PrintParseModuloMembersStatement) :
       (2) VALUES: all 9 kinds, nested lists / objects, variables, quoted strings with arbitrary content; floats and
           block strings under the string-level hypotheses `FloatLexeme` / `BlockLexeme` (block strings at nesting
           depth 0: the value position of `parse_value`) (`print_parse_value`).
-    MISSING: arguments / directives / variable definitions (same lemmas, one more layer), selections and selection sets
+    Token level one layer up: ARGUMENTS and DIRECTIVES (`print_tokens_directives`).
+    MISSING: variable definitions (same lemmas, one more layer), selections and selection sets
     (need `_indent` = `replaceLF` commuting with lexing: an LF-prefix of ignored characters inside block strings is the
     lemma `indent_common_shift` of the string part), operations / fragments / type-system definitions and the document
     loop (need the document-level `parse_complete` of C01, itself open).  All of these are covered by the
